@@ -303,7 +303,7 @@ def cases(tier, seed):
             n *= s_
         for ki, (kind, split) in enumerate([("num", False), ("tuple2", True),
                                             ("str", False)]):
-            base = {"shape": list(shp), "types": "ifsif"[bi % 2:][:len(shp)],
+            base = {"shape": list(shp), "types": "ifsifs"[bi % 2:][:len(shp)],
                     "kind": kind, "split": split, "flat": (bi + ki) % 2 == 1,
                     "spelling": ["dict", "tuple"][ki % 2], "nconst": ki % 3}
             yield dict(base, strat="seq")
